@@ -185,9 +185,29 @@ def strings_worker(args):
             toks = [t for t in Lex(text).tokens()][:-1]
             strs = [t.content for t in toks if t.is_a(TokenTypes.LITERAL_STRING)]
             if strs != expect or toks[0].token_type is not TokenTypes.SET:
-                kind = 'backslash-before-quote' if w.endswith('\\') else 'other'
+                # the recorded known finding is exactly: content ends in a backslash AND another quote follows on the line
+                kind = 'backslash-before-quote-then-another-string' if (w.endswith('\\') and len(expect) == 2) else \
+                    ('ends-in-backslash-alone' if w.endswith('\\') else 'other')
                 res.violation('strings|%s' % kind, 'string content %r in %r is lexed as %r' % (w, text, [(t.token_type.name, t.content) for t in toks]),
                               inputs={'content': w, 'text': text}, replayed=True)
+                break
+    # every character of the alphabet the lemma ranges over, inside a string, through the real lexer
+    # (the lemma is about the string regex; line splitting and comment cutting happen outside it)
+    for code in range(1, 127):
+        ch_ = chr(code)
+        if ch_ in '"\n\r':
+            continue
+        for content in ('x%sy' % ch_, ch_ if ch_ != '\\' else 'z' + ch_ + 'z', '%sq' % ch_):
+            text = 'set "%s"' % content
+            res.nontrivial += 1
+            try:
+                toks = [t for t in Lex(text).tokens()][:-1]
+                got = [(t.token_type.name, t.content) for t in toks]
+            except Exception as ex:
+                got = 'lexer raises %s: %s' % (type(ex).__name__, ex)
+            if got != [('SET', 'set'), ('LITERAL_STRING', content)]:
+                res.violation('strings|character-%s' % ('control' if code < 32 else 'printable'),
+                              'the string %r (character code %d) is lexed as %r' % (content, code, got), inputs={'text': text}, replayed=True)
                 break
     res.sample({'witness_contents': list(dict.fromkeys(wit))[:8]})
     res.functions = world.functions_seen()
